@@ -86,7 +86,9 @@ def server_parity(ctx, ncases, nops):
                     continue
                 obs = runner.do(copy.deepcopy(op))
                 sc.learn(op, obs)
-                sc.conn = runner.connected()
+                now = runner.connected()
+                sc.gone = sorted(set(sc.gone) | (set(sc.conn.values()) - set(now.values())))[-6:]
+                sc.conn = now
                 ops.append(op)
                 thr.append(obs)
                 ctx.count('op.' + op['op'])
